@@ -34,13 +34,16 @@ func genC11(t *rapid.T) Case {
 				op.Via, op.Split = GenVia(t, op.Len)
 			}
 			c.Ops = append(c.Ops, op)
+			if rapid.IntRange(0, 14).Draw(t, "restart") == 0 {
+				c.Ops = append(c.Ops, Op{K: "reopen"}) // the server is stopped and started again on the same directories; a new client connects
+			}
 		}
 	case 1: // transactional
 		c.Ops = GenTxOps(t, TxGenOpts{MinOps: 5, MaxOps: 40, Weights: map[string]int{
-			"begin": 5, "set": 10, "del": 3, "get": 2, "getr": 1, "keys": 1, "commit": 4, "rollback": 2, "gc": 1}})
+			"begin": 5, "set": 10, "del": 3, "get": 2, "getr": 1, "keys": 1, "commit": 4, "rollback": 2, "gc": 1, "reopen": 1}})
 	default: // with operations through ended / unknown transactions
 		c.Ops = GenTxOps(t, TxGenOpts{MinOps: 5, MaxOps: 40, LateWeight: 25, Weights: map[string]int{
-			"begin": 6, "set": 8, "del": 3, "get": 3, "getr": 1, "keys": 2, "commit": 5, "rollback": 3}})
+			"begin": 6, "set": 8, "del": 3, "get": 3, "getr": 1, "keys": 2, "commit": 5, "rollback": 3, "reopen": 1}})
 	}
 	return c
 }
